@@ -104,3 +104,11 @@ Definition matching_from_names (names : list str) (m : list (str * path))
   | None => None
   | Some mt => Some (mt, filter (fun p => negb (mem_path p mt)) (map snd m))
   end.
+
+(* a history of calls on ONE propagator instance (default_operation fixed by __init__): the code
+   keeps no state on the instance between calls, so call k is the function of its own arguments.
+   (Whether the returned set OBJECTS are shared between calls is an identity fact outside this
+   value model; harness/c16.py checks it on call histories.) *)
+Definition propagate_calls (d : cls) (calls : list (item * list path * list path))
+  : list (list path * list path) :=
+  map (fun c => let '(t, mt, ot) := c in propagate d mt ot t) calls.
